@@ -253,6 +253,11 @@ func c07ErrorEdgesSkipSinks(r *an.Run, m *runModel) {
 					ikey := short(g) + "|on-error|" + an.CalleeName(ic)
 					nilE := errNilEdges(icall)
 					good := len(nilE) > 0
+					if !good && tupleReturnedWhole(icall) {
+						// `return imports.Process(...)`: its error is the helper's error
+						r.Pass(ikey, ic.Pos(), "the result of %s, error included, is what the helper %s returns", an.CalleeName(ic), short(g))
+						continue
+					}
 					if good {
 						// with the nil edges removed every reachable return of the helper is a failure
 						reach := an.ReachFromSuccs(icall.Block(), skipEdges(nilE))
@@ -408,10 +413,11 @@ func slotGuard(r *an.Run, rule string) {
 	if f == nil {
 		return
 	}
-	if _, holder, _ := matchLoop(r); holder != nil {
-		f = holder // the node stage may live in a helper of Replace
-	}
 	sets := an.CallsTo(f, rvSet)
+	if site := findSlotSite(r); site != nil {
+		f = site.fn // the node stage / the per-match step may live in a helper of Replace
+		sets = site.calls(rvSet)
+	}
 	for _, s := range sets {
 		args := an.CallArgs(s)
 		dst, src := args[0], args[1]
@@ -440,4 +446,29 @@ func slotGuard(r *an.Run, rule string) {
 	}
 	r.Count("slot assignments", len(sets))
 	r.Min("slot assignments", 1)
+}
+
+// tupleReturnedWhole: the call's result tuple is returned as it is
+// (`return f(...)`): every extract of it feeds the same Return, in order.
+func tupleReturnedWhole(c *ssa.Call) bool {
+	if c.Referrers() == nil {
+		return false
+	}
+	n := c.Call.Signature().Results().Len()
+	for _, u := range *c.Referrers() {
+		if ret, ok := u.(*ssa.Return); ok && n == 1 && len(ret.Results) == 1 {
+			return true
+		}
+	}
+	found := 0
+	for i := 0; i < n; i++ {
+		for _, ex := range an.ExtractOf(c, i) {
+			for _, u := range *ex.Referrers() {
+				if ret, ok := u.(*ssa.Return); ok && i < len(ret.Results) && ret.Results[i] == ssa.Value(ex) {
+					found++
+				}
+			}
+		}
+	}
+	return found == n
 }
